@@ -38,13 +38,14 @@ def gen_scenario(ctx, k):
         if not b.get('segments'):
             b['segments'] = [{'id': f'xs{b["id"]}_{i}', 'address': a, 'length': '1cm'} for i, a in enumerate(rng.sample(range(0, 128), rng.randrange(1, 6)))]
     d = cfggen.write_config(cfg, cfg_dir(f'c19_{k}'))
-    nodes = cfggen.assign_tree(rng, cfg, absent_prob=0.0, unknown=1)
+    nodes = cfggen.assign_tree(rng, cfg, absent_prob=rng.choice([0.0, 0.0, 0.3]), unknown=1)
     m = statemodel.Model(cfg, nodes)
     variant = rng.choice(['plain', 'plain', 'stall', 'budget'])
     sc = Scn(seed=ctx.seed * 79 + k, watchdog=300000)
     sc.add(*cfggen.bus_lines(cfg, nodes), 'bus brackets 0', 'bus policy 19 never', f'start {d} 0', 'quiesce', 'flush', 'quiesce')
     conn = [b for b in cfg['boards'] if m.connected(b['id'])]
     cases = []
+    reused = [0]
     blocked_board = rng.choice(conn) if conn and variant != 'plain' else None
     if blocked_board is not None:
         ad = m.addr[blocked_board['id']]
@@ -58,7 +59,29 @@ def gen_scenario(ctx, k):
             sc.add(call('bidib_send_string_get', ad[0], ad[1], ad[2], 0, 0, 0), call('bidib_send_string_get', ad[0], ad[1], ad[2], 0, 1, 0), 'flush', 'quiesce')
     n = rng.randrange(5, 40)
     MALFORMED = [bytes([9, 0, 1, 0xA0]), bytes([2, 0, 0]), bytes([200]), bytes([5, 1, 2, 3, 4, 5]), bytes([4, 0, 0, 0xA0]), bytes([0])]
+    reuse_at = rng.randrange(1, n) if variant == 'plain' and rng.random() < 0.5 else -1
     for i in range(n):
+        if i == reuse_at:
+            # a board drops off the bus and ANOTHER configured board logs on at the address that became free: whether reports from that
+            # address are mirrored depends on the board that is there NOW
+            movable = [b for b in conn if m.addr[b['id']] != (0, 0, 0) and m.addr[b['id']][1] == 0 and not cfggen.is_interface(b)]
+            others = [b for b in cfg['boards'] if not cfggen.is_interface(b)]
+            if movable and len(others) > 1:
+                a_ = rng.choice([b for b in movable if cfggen.secack(b)] or movable)
+                diff = [b for b in others if b is not a_ and cfggen.secack(b) != cfggen.secack(a_)]
+                b_ = rng.choice(diff or [b for b in others if b is not a_])
+                old = m.addr[a_['id']]
+                lost = bytes([2, old[0]]) + a_['uid']
+                new = bytes([3, old[0]]) + b_['uid']
+                sc.add('mark cx0', f'bus delnode {old[0]}.0.0', up(model.build_msg((0, 0, 0), 0, C('MSG_NODE_LOST'), lost)), 'quiesce')
+                m.on_uplink((0, 0, 0), C('MSG_NODE_LOST'), lost)
+                if m.connected(b_['id']):
+                    ob = m.addr[b_['id']]
+                    sc.add(f'bus delnode {ob[0]}.{ob[1]}.{ob[2]}')
+                sc.add(f'bus node {old[0]}.0.0 {b_["uid"].hex()}', up(model.build_msg((0, 0, 0), 0, C('MSG_NODE_NEW'), new)), 'quiesce')
+                m.on_uplink((0, 0, 0), C('MSG_NODE_NEW'), new)
+                conn = [b for b in cfg['boards'] if m.connected(b['id'])]
+                reused[0] = 1
         # one packet: usually one report, sometimes several reports / other messages, sometimes a malformed message at its end
         nm = 1 if rng.random() < 0.6 else rng.randrange(2, 5)
         reports, payload = [], []
@@ -98,7 +121,7 @@ def gen_scenario(ctx, k):
             # time passes, then any message from that node lets the library notice the expiry
             sc.add('advance 3', up(model.build_msg(ad, 0, C('MSG_BM_CURRENT'), bytes([250, 0]))), 'quiesce')
     sc.add(f'mark c{n + 1}', 'stop')
-    return sc.text(), cfg, nodes, cases, variant, blocked_board['id'] if blocked_board else None
+    return sc.text(), cfg, nodes, cases, variant + ('+address-reuse' if reused[0] else ''), blocked_board['id'] if blocked_board else None
 
 def evaluate(ctx, r, cfg, nodes, cases, variant, blocked, meta):
     if ctx.generic_failures(r, meta):
@@ -173,12 +196,14 @@ def evaluate(ctx, r, cfg, nodes, cases, variant, blocked, meta):
                     return
         nmir += len(mir)
     ctx.count('mirrors_checked', nmir)
+    if 'address-reuse' in variant:
+        ctx.count('scenarios_with_address_reuse')
     if nmir:
         ctx.nontrivial.add(meta['digest'])
 
 def run(ctx):
     ctx.rule = ('1-4 boards with feature 0x03 absent / 0 / >0, 5-40 packets of occupied/free/multiple/position reports (40 % of the packets carry 2-4 messages from several nodes, 12 % end in a malformed message) with arbitrary detector numbers and bitmap sizes 8..128 from '
-                'connected boards and an unknown node, no flush step; variants: the reporting board stalled, or its queue blocked by a held 30-byte request. '
+                'connected boards and an unknown node, no flush step; variants: the reporting board stalled, its queue blocked by a held 30-byte request, or a board lost and another configured board (SecAck setting differs) logging on at the freed address; configured boards may be absent. '
                 'non-trivial = distinct scenario in which >=1 mirror was checked')
     ctx.assumptions = ['a report counts from the quiescent point after it was fed', 'mirror messages have no response, so only a stall or a held message in front can delay them']
     jobs = [gen_scenario(ctx, k) for k in range(ctx.n(250, 9000))]
